@@ -730,6 +730,40 @@ def fuzz_inputs(rng):
         xu = np.full(n, np.inf)
         me = 0
         aeq = np.zeros((0, n))
+    if n >= 3 and rng.random() < 0.05:
+        # structured family: an inequality that holds with equality at the
+        # origin but is NOT in the initial working set (its normal makes an
+        # acute angle with the gradient), whose row is orthogonal to every
+        # projected CG direction (an equality removes the offending
+        # component), so that its residual stays exactly zero while the CG
+        # phase runs to the trust-region boundary; the gradient there pushes
+        # the boundary improvement across it.  Exact zeros are kept by using
+        # coordinate permutations / sign flips / powers of two only.
+        tags.append("zero_resid_outside_ws")
+        perm = rng.permutation(n)
+        i0, i1, i2 = (int(v) for v in perm[:3])
+        sg = rng.choice([-1.0, 1.0], n)
+        gam = float(2.0 ** int(rng.integers(-20, 21)))
+        delta = float(2.0 ** int(rng.integers(-20, 21)))
+        a_, b_, c_ = (float(v) for v in rng.uniform(0.5, 4.0, 3))
+        p_, q_, r_ = (float(v) for v in rng.uniform(0.5, 2.0, 3))
+        g = np.zeros(n)
+        g[i0] = -a_ * gam * sg[i0]
+        g[i1] = b_ * gam * sg[i1]
+        h = np.zeros((n, n))
+        h[i0, i2] = h[i2, i0] = -c_ * gam / delta * sg[i0] * sg[i2]
+        for j in perm[3:]:
+            h[j, j] = float(rng.uniform(0.0, 2.0)) * gam / delta
+        m = 1
+        aub = np.zeros((1, n))
+        aub[0, i1] = p_ * sg[i1]
+        aub[0, i2] = q_ * sg[i2]
+        bub = np.zeros(1)
+        me = 1
+        aeq = np.zeros((1, n))
+        aeq[0, i1] = r_ * sg[i1]
+        xl = np.full(n, -np.inf)
+        xu = np.full(n, np.inf)
     bubn = rng.standard_normal(m) * scale
     beq = rng.standard_normal(me) * scale
     if n >= 3 and rng.random() < 0.06:
